@@ -31,15 +31,17 @@ theorem isClient_of_offer_setup (r : Option Bool) :
     isClientOfRemoteSetup (localSetup .offer r) = false := by
   simp [localSetup, isClientOfRemoteSetup]
 
-/-- one exchange between WebRTC endpoints whose roles are already complementary changes nothing -/
-theorem exchange_set (r : Bool) (n : Nat) :
-    exchange ⟨.webrtc, some r⟩ ⟨.webrtc, some (!r)⟩ n = (⟨.webrtc, some r⟩, ⟨.webrtc, some (!r)⟩) := by
-  simp [exchange, Ep.setRemote, roleAfterRemote]
+/-- one exchange between WebRTC endpoints that have no DTLS transport yet, whatever roles earlier
+descriptions left them with: the offerer ends up the DTLS client, the answerer the server (the role follows
+the latest description until the transport exists) -/
+theorem exchange_any (ro ra : Option Bool) (n : Nat) (hn : 0 < n) :
+    exchange ⟨.webrtc, ro⟩ ⟨.webrtc, ra⟩ n = (⟨.webrtc, some true⟩, ⟨.webrtc, some false⟩) := by
+  simp [exchange, Ep.setRemote, roleAfterRemote, roleAfterRemoteFull, firstSetup_localDesc _ _ n hn,
+    isClient_of_offer_setup, isClient_of_answer_setup]
 
 theorem exchange_fresh (n : Nat) (hn : 0 < n) :
-    exchange ⟨.webrtc, none⟩ ⟨.webrtc, none⟩ n = (⟨.webrtc, some true⟩, ⟨.webrtc, some false⟩) := by
-  simp [exchange, Ep.setRemote, roleAfterRemote, firstSetup_localDesc _ _ n hn,
-    isClient_of_offer_setup, isClient_of_answer_setup]
+    exchange ⟨.webrtc, none⟩ ⟨.webrtc, none⟩ n = (⟨.webrtc, some true⟩, ⟨.webrtc, some false⟩) :=
+  exchange_any none none n hn
 
 /-! data-channel ids -/
 
